@@ -102,10 +102,10 @@ ApplyRecs(cs, kind, recs) ==
                         LET ix == AcIdx(cs, r.ac_number)
                         IN IF ix = {} THEN cs
                            ELSE LET i == Min(ix)
-                                    hadErr == ~Eq(cs.acs[i].status, <<>>) /\ cs.acs[i].status.error_code # 0
                                 IN [cs EXCEPT !.acs[i].status = r,
-                                              \* error details are dropped when the code goes away
-                                              !.acs[i].err = IF r.error_code = 0 THEN <<>> ELSE @]
+                                              \* "error details appear only while an error code is present": a
+                                              \* changed report without error code clears the detail text
+                                              !.acs[i].err = IF r.error_code = 0 /\ ~Eq(r, cs.acs[i].status) THEN <<>> ELSE @]
                     [] kind = "timer" ->
                         LET ix == AcIdx(cs, r.ac_number)
                         IN IF ix = {} THEN cs ELSE [cs EXCEPT !.acs[Min(ix)].timer = r]
